@@ -61,6 +61,25 @@ var (
 	tupleIntTextInt, _ = datacodec.NewTuple(datatype.NewTuple(datatype.Int, datatype.Varchar, datatype.Int))
 )
 
+// coldRefusing: shared codecs over fresh nested data types, only ever used by the refused calls of the
+// cold-start phase.
+var coldRefusing = func() (out []struct {
+	codec datacodec.Codec
+	bad   []byte
+}) {
+	u1, _ := datatype.NewUserDefined("ks9", "inner", []string{"a", "b"}, []datatype.DataType{datatype.Int, datatype.NewList(datatype.Varchar)})
+	u2, _ := datatype.NewUserDefined("ks9", "outer", []string{"i", "m"}, []datatype.DataType{u1, datatype.NewMap(datatype.Varchar, u1)})
+	for _, dt := range []datatype.DataType{u1, u2, datatype.NewList(u2), datatype.NewMap(datatype.Int, u1), datatype.NewTuple(datatype.Int, u2), datatype.NewSet(datatype.NewTuple(u1)), datatype.NewCustom("c.Refusing")} {
+		if c, err := datacodec.NewCodec(dt); err == nil {
+			out = append(out, struct {
+				codec datacodec.Codec
+				bad   []byte
+			}{c, []byte{0, 0, 0, 9, 1}})
+		}
+	}
+	return
+}()
+
 // structType k of goroutine g: a type no other goroutine and no other k has. tagged: the fields are
 // found through `cassandra:"name"` tags instead of their names.
 func coldStructType(g, k int, names []string, types []reflect.Type, tagged bool) reflect.Type {
@@ -182,6 +201,30 @@ func buildColdCalls(seed int64, g int) []*call {
 			var dest address
 			_, err = udtCodec.Decode(enc, &dest, v3x)
 			return roundTrip{enc, dest, 0}, err
+		})
+	}
+
+	// --- refused calls on shared codecs: the codecs render their type (AsCql / String of the shared
+	// data-type objects) only when they build an error, so the first refusals of a process happen here,
+	// concurrently, on types and codecs no earlier call has touched
+	for ci, cc := range coldRefusing {
+		codec, v := cc.codec, ver()
+		bad := cc.bad
+		b.add(idColdUdt, "Encode+Decode refused", fmt.Sprintf("refusing-%d/%s", ci, vname(v)), false, func() (interface{}, error) {
+			var out []string
+			if _, err := codec.Encode(make(chan int), v); err != nil {
+				out = append(out, err.Error())
+			}
+			var dest interface{}
+			if _, err := codec.Decode(bad, &dest, v); err != nil {
+				out = append(out, err.Error())
+			}
+			var wrong chan int
+			if _, err := codec.Decode(nil, &wrong, v); err != nil {
+				out = append(out, err.Error())
+			}
+			out = append(out, codec.DataType().AsCql(), fmt.Sprint(codec.DataType()))
+			return out, nil
 		})
 	}
 
